@@ -565,6 +565,66 @@ func c05Case(w *core.Worker, i int) {
 			s.Close()
 		}
 	}
+	// the STDIN table as DML target (every 10th case): two data-changing statements in one transaction
+	if i%10 == 3 {
+		st := modelFromG(gt)
+		ss, err := core.NewSess(core.SessOpts{Dir: w.Work, Stdin: gt.CSV(), WaitTimeout: 0.2, Quiet: true})
+		if err == nil {
+			q1 := "UPDATE STDIN SET c1 = 'zz' WHERE id % 2 = 0;"
+			cnt := 0
+			for _, row := range st.Rows {
+				if v, ok := cellRV(row[0]).asIntStrict(); ok && v%2 == 0 {
+					row[1] = core.Sp("zz")
+					cnt++
+				}
+			}
+			r1 := ss.Exec(q1)
+			hist := []string{"(stdin = t.csv)", q1}
+			sviol := func(sig, what string) {
+				w.Violation(sig, fmt.Sprintf("STDIN table, %v: %s", hist, what), c05Replay{Files: small(files), History: hist, Detail: what})
+			}
+			if r1.Err != nil {
+				sviol("stdin:statement-error", r1.Err.Error())
+			} else {
+				if r1.Affected != cnt {
+					sviol("stdin:affected-count", fmt.Sprintf("reported %d, expected %d", r1.Affected, cnt))
+				}
+				if v := ss.Exec("SELECT * FROM STDIN;"); v.Err == nil && len(v.Views) == 1 {
+					st.Cols = append([]string{}, gt.Cols...)
+					if d := c05Diff(st, v.Views[0]); d != "" {
+						sviol("stdin:table-differs", d)
+					}
+					compared++
+				}
+				q2 := "DELETE FROM STDIN WHERE id % 3 = 0;"
+				hist = append(hist, q2)
+				r2 := ss.Exec(q2)
+				if r2.Err != nil {
+					sig := "stdin:statement-error"
+					if strings.Contains(r2.Err.Error(), "lock wait timeout") {
+						sig = "stdin:second-data-changing-statement-waits-for-its-own-lock"
+					}
+					sviol(sig, r2.Err.Error())
+				} else {
+					var keep [][]*string
+					for _, row := range st.Rows {
+						if v, ok := cellRV(row[0]).asIntStrict(); !(ok && v%3 == 0) {
+							keep = append(keep, row)
+						}
+					}
+					st.Rows = keep
+					if v := ss.Exec("SELECT * FROM STDIN;"); v.Err == nil && len(v.Views) == 1 {
+						if d := c05Diff(st, v.Views[0]); d != "" {
+							sviol("stdin:table-differs", d)
+						}
+						compared++
+					}
+				}
+			}
+			ss.Close()
+			w.Count("stdin_histories", 1)
+		}
+	}
 	if i < 30 {
 		w.Sample(map[string]interface{}{"history": sqls, "rows_t": n, "cpu": cpu})
 	}
